@@ -75,6 +75,11 @@ def make_substitution(ccls, case_map=None):
                 for a in parts[1:-1]:
                     base = I.get_attr(base, a)
                 I.set_attr(base, parts[-1], make_symbolic(I, spec, f"{site}#{n}.{expr_name}", env=ns))
+            # exceptions the callee's contract leaves open (may_raise): the call may end in any of them, after having changed
+            # whatever it may modify
+            for k in (getattr(ccls, "may_raise", None) or []):
+                if path.decide(z3.Bool(path.fresh_name(f"{site}.may_raise.{k.__name__}"))):
+                    raise PyRaise(ExcV(k, ()))
             result = make_symbolic(I, rspec, f"{site}#{n}.result", env=ns) if rspec is not None else None
             ns["result"] = result
             for name, f in contract_functions(ccls, "ensures"):
